@@ -603,7 +603,7 @@ func TestC17(t *testing.T) {
 			}
 		}
 		if rapid.IntRange(0, 2).Draw(t, "blocked") > 0 {
-			c.Blocking = rapid.SampledFrom([]int{1, 2, 3, 5, 20, 21, 22, 23, 24, 45, 46, 47, 64, 70}).Draw(t, "blocking")
+			c.Blocking = rapid.SampledFrom([]int{1, 2, 3, 5, 20, 21, 22, 23, 24, 45, 46, 47, 64, 70, 127, 128, 129, 256, 300}).Draw(t, "blocking")
 		}
 		for i := 0; i < rapid.IntRange(0, 2).Draw(t, "nnew"); i++ {
 			name := fmt.Sprintf("added-%d", i)
